@@ -408,7 +408,7 @@ class _NP:
         return r.view(SA) if r.dtype == object else r
 
     def linspace(self, *a, **k):
-        return _np.linspace(*a, **k)
+        return wrap(_np.linspace(*a, **k))
 
     def concatenate(self, arrs, *a, **k):
         if any(_has_sym(x) for x in arrs):
